@@ -152,8 +152,11 @@ def install(mods):
                 nlines = _STATE['in_write']['line']
                 _STATE['in_write'] = None
                 after = read_file(filename)
+                import hashlib
                 emit('write',
                      seq=seq,
+                     bd=None if after is None else hashlib.blake2b(
+                         after, digest_size=8).hexdigest(),
                      lines=nlines,
                      ld=leaf_digest(exprs),
                      td=None if after is None else text_digest(
